@@ -66,6 +66,8 @@ func genBlockPlan(seed uint64, thorough bool) *Plan {
 	g.keys = keys
 	p := &Plan{Prop: "C11", Seed: seed, Knobs: Knobs{RandSeed: int64(seed), MaxSteps: 60000, IdleCap: 3000}}
 	p.Knobs.Sticky = []int{0, 20, 50, 80}[g.r.IntN(4)]
+	p.Knobs.Stall = []int{0, 20, 20, 40}[g.r.IntN(4)]
+	p.Knobs.PCT = []int{0, 0, 0, 2, 3}[g.r.IntN(5)]
 	p.Knobs.Frag = g.chance(4)
 	class := g.r.IntN(5)
 	if class == 4 {
